@@ -293,9 +293,10 @@ def check_property(pid, tier, seed, replay_only=None):
         if is_fuzz(u):
             tmpin = os.path.join(workdir, 'replay-input-%d' % replayed)
             with open(tmpin, 'wb') as fo: fo.write(bytes.fromhex(body.get('input_hex', '')))
-            nfail, kind = FUZZ.replay_input(bins[u['name']], tmpin, SAN_ENV, times=1)
-            replayed += 1; failed = nfail > 0; so = 'kind=%s' % kind
             exp = body.get('expect', 'pass')
+            # witnesses of recorded findings run with the target's exclusion-by-construction switched off
+            nfail, kind = FUZZ.replay_input(bins[u['name']], tmpin, SAN_ENV, times=1, extra_env={'VF_NO_EXCL': '1'} if exp.startswith('known:') else None)
+            replayed += 1; failed = nfail > 0; so = 'kind=%s' % kind
             if replay_only is not None: print('replay %s: %s %s' % (rf, 'FAIL' if failed else 'pass', kind or ''))
             if failed:
                 if exp.startswith('known:'):
